@@ -229,15 +229,18 @@ def describe(trace, rej):
                 dict(id="replay/0", kind="vrows", strs=[a, b], rows=[1, 2]))
     if ev["ev"] == "erow" and len(at) == 2:
         a, b = trace["evrs"][at[0] - 1], trace["evrs"][at[1] - 1]
-        return ("%s %s vs %s %s: rpm_version_compare observed %s, operators [<,==,>,<=,>=,!=] observed %s"
-                % (ev["lc"], show_evr(a), ev["rc"], show_evr(b), ev["cmp"][at[1] - 1], ev["ops"][at[1] - 1]),
+        return ("%s(arch %r) %s vs %s(arch %r) %s: rpm_version_compare observed %s, operators [<,==,>,<=,>=,!=] observed %s"
+                % (ev["lc"], ev["la"], show_evr(a), ev["rc"], ev["ra"], show_evr(b), ev["cmp"][at[1] - 1],
+                   ev["ops"][at[1] - 1]),
                 dict(id="replay/0", kind="erows", evrs=[a, b], rows=[1, 2], sel=[], variant=0))
     if ev["ev"] == "sel":
         pk = [trace["evrs"][i - 1] for i in ev["pk"]]
         return ("%s holding %s (in this order; it reports %s of them): newest -> position %s, oldest -> %s, "
                 "get_max -> %s, get_min -> %s (0: none of them, -1: raised)"
                 % (ev["via"], [show_evr(x) for x in pk], ev["n"], ev["mx"], ev["mn"], ev["gmx"], ev["gmn"]),
-                dict(id="replay/0", kind="erows", evrs=pk, rows=[], sel=[list(range(1, len(pk) + 1))], variant=0))
+                dict(id="replay/0", kind="erows", evrs=pk, rows=[], variant=0,
+                     sel=[list(range(1, ev.get("first", len(pk)) + 1))] +
+                         ([list(range(ev["first"] + 1, len(pk) + 1))] if ev.get("first") else [])))
     return ("event %r" % (ev,), None)
 
 
@@ -331,7 +334,9 @@ def run(prop, tier):
     pairs = ["InstalledRpm_InstalledRpm", "YumListRpm_InstalledRpm", "InstalledRpm_YumListRpm", "YumListRpm_YumListRpm",
              "OwnRpm_InstalledRpm", "InstalledRpm_OwnRpm", "OwnRpm_YumListRpm"]
     if not stats.get("vercmp_calls") or not stats.get("op_calls") or not stats.get("sel_calls") \
-            or any(not stats.get("sel_" + v) for v in vias) or any(not stats.get("pair_" + v) for v in pairs):
+            or any(not stats.get("sel_" + v) for v in vias) or any(not stats.get("pair_" + v) for v in pairs) \
+            or any(not stats.get("again_" + v) for v in ("reparse", "append", "insert")) \
+            or len([k for k in stats if k.startswith("arch_")]) < 8:
         vacuous = "driver did not reach all of the code under test (every kind of RpmList included): %s" % stats
 
     t1 = time.time()
